@@ -376,6 +376,10 @@ def wrenchAboutA (XA XB : Xf K) (F : SV K) : SV K :=
 re-expressed force with the body's Ground velocity minus pairing its wrench about `Ao` with the ancestor's velocity -/
 theorem relVel_adjoint (XA XB : Xf K) (VA VB F : SV K) :
     SV.dot F (relVel XA VA XB VB) = SV.dot (rotSV XA.R F) VB - SV.dot (wrenchAboutA XA XB F) VA := by
+  obtain ⟨⟨⟨r00, r01, r02⟩, ⟨r10, r11, r12⟩, ⟨r20, r21, r22⟩⟩, ⟨pa0, pa1, pa2⟩⟩ := XA
+  obtain ⟨RB, ⟨pb0, pb1, pb2⟩⟩ := XB
+  obtain ⟨⟨wa0, wa1, wa2⟩, ⟨va0, va1, va2⟩⟩ := VA; obtain ⟨⟨wb0, wb1, wb2⟩, ⟨vb0, vb1, vb2⟩⟩ := VB
+  obtain ⟨⟨t0, t1, t2⟩, ⟨f0, f1, f2⟩⟩ := F
   simp only [relVel, rotSV, wrenchAboutA]; to_scalars; ring
 
 /-- rows of `R` right-handed -/
@@ -445,6 +449,7 @@ theorem ground_adjoint (c : Par K) (A B F : Kin K) (lam : K) (hA : IsOrtho A.X.R
     lam * pverr c (toAncestor A B).X (toAncestor A F).X (toAncestor A B).V (toAncestor A F).V
       = SV.dot (rotSV A.X.R (forces c (toAncestor A B).X (toAncestor A F).X lam).1) B.V
         + SV.dot (rotSV A.X.R (forces c (toAncestor A B).X (toAncestor A F).X lam).2) F.V := by
+  simp only [toAncestor]
   rw [force_adjoint c _ _ _ _ lam hB]
   exact ground_adjoint_two A.X B.X F.X A.V B.V F.V _ _ hA hR (forces_balance c _ _ lam hB)
 end PointInPlane
@@ -479,6 +484,7 @@ theorem ground_adjoint (c : Par K) (A B1 B2 : Kin K) (lam : V3 K) (hA : IsOrtho 
     V3.dot lam (pverr c (toAncestor A B1).X (toAncestor A B2).X (toAncestor A B1).V (toAncestor A B2).V)
       = SV.dot (rotSV A.X.R (forces c (toAncestor A B1).X (toAncestor A B2).X lam).1) B1.V
         + SV.dot (rotSV A.X.R (forces c (toAncestor A B1).X (toAncestor A B2).X lam).2) B2.V := by
+  simp only [toAncestor]
   rw [force_adjoint c _ _ _ _ lam h1]
   exact ground_adjoint_two A.X B1.X B2.X A.V B1.V B2.V _ _ hA hR (forces_balance c _ _ lam h1)
 end Ball
